@@ -73,12 +73,12 @@ def run(chk: Check):
     # ---- HaltonSampler: seeds, cursors, successive batches
     M = 150 if chk.tier == "quick" else 3000
     for _ in range(M):
-        seed = rng.randrange(10 ** 4); d = rng.randint(1, 8)
+        seed = rng.randrange(10 ** 4); d = rng.choice([rng.randint(1, 8), rng.randint(1, 8), rng.randint(9, 40)])
         sizes = [rng.randint(1, 7) for _ in range(rng.randint(1, 6))]
         forced = rng.choice([None, None] + start_indices(rng, 1))
         meta.append(("hsampler", seed, d, sizes, forced)); reqs.append("halton.primes 1")  # placeholder, real request built below
     for _ in range(M):
-        seed = rng.randrange(10 ** 4); d = rng.randint(1, 8)
+        seed = rng.randrange(10 ** 4); d = rng.choice([rng.randint(1, 8), rng.randint(1, 8), rng.randint(9, 40)])
         sizes = [rng.randint(1, 7) for _ in range(rng.randint(1, 6))]
         meta.append(("rsampler", seed, d, sizes)); reqs.append("halton.primes 1")
 
